@@ -32,6 +32,7 @@ type vCase struct {
 	Bad      []int64 `json:"bad"`
 	Nclients int     `json:"nclients"`
 	Gateq    bool    `json:"gateq"` // park the flusher at shallQuit until "qgo"
+	Gates    bool    `json:"gates"` // park the quitting flusher inside ticker.Stop() until "sgo"
 	Ops      [][]any `json:"ops"`
 }
 
@@ -46,6 +47,7 @@ type vObs struct {
 	Benter   bool      `json:"benter"`
 	Bexit    bool      `json:"bexit"`
 	Qpark    bool      `json:"qpark"`
+	Spark    bool      `json:"spark"`
 }
 
 type vStep struct {
@@ -67,10 +69,23 @@ type vGate struct {
 type vTicker struct {
 	c       chan time.Time
 	stopped atomic.Bool
+	run     *vRun
 }
 
 func (t *vTicker) Chan() <-chan time.Time { return t.c }
-func (t *vTicker) Stop()                  { t.stopped.Store(true) }
+
+// Stop is a schedule point: with gates on, the quitting flusher parks here (the ticker
+// still counts as live) until the controller's "sgo".
+func (t *vTicker) Stop() {
+	if r := t.run; r != nil && r.gateStop.Load() {
+		g := make(chan struct{})
+		r.mu.Lock()
+		r.sgates = append(r.sgates, g)
+		r.mu.Unlock()
+		<-g
+	}
+	t.stopped.Store(true)
+}
 
 type vTask struct {
 	id int64
@@ -189,16 +204,18 @@ func vQuiesce() (ok bool, benter bool, bexit bool) {
 }
 
 type vRun struct {
-	c       vCase
-	pe      *PeriodicalExecutor
-	add     func(id int64, w int)
-	tasks   func() []any
-	mu      sync.Mutex
-	parked  []*vGate
-	ticker  *vTicker
-	qgate   chan struct{}
-	clients []*vClient
-	bad     map[int64]bool
+	c        vCase
+	pe       *PeriodicalExecutor
+	add      func(id int64, w int)
+	tasks    func() []any
+	mu       sync.Mutex
+	parked   []*vGate
+	ticker   *vTicker
+	qgate    chan struct{}
+	sgates   []chan struct{}
+	gateStop atomic.Bool
+	clients  []*vClient
+	bad      map[int64]bool
 }
 
 func (r *vRun) callback(tasks []any) {
@@ -269,6 +286,7 @@ func (r *vRun) observe(benter, bexit bool) vObs {
 		o.Tick = len(r.ticker.c) > 0
 	}
 	o.Qpark = r.qgate != nil
+	o.Spark = len(r.sgates) > 0
 	r.mu.Unlock()
 	return o
 }
@@ -300,7 +318,7 @@ func vRunCase(c vCase) (out vOut) {
 		r.tasks = func() []any { return vc.tasks }
 	}
 	r.pe.newTicker = func(time.Duration) timex.Ticker {
-		t := &vTicker{c: make(chan time.Time, 1)}
+		t := &vTicker{c: make(chan time.Time, 1), run: r}
 		r.mu.Lock()
 		r.ticker = t
 		r.mu.Unlock()
@@ -316,6 +334,20 @@ func vRunCase(c vCase) (out vOut) {
 			<-g
 		}
 		timex.SinceHook.Store(&hook)
+	}
+	r.gateStop.Store(c.Gates)
+	sgo := func() bool {
+		r.mu.Lock()
+		var g chan struct{}
+		if len(r.sgates) > 0 {
+			g = r.sgates[0]
+			r.sgates = r.sgates[1:]
+		}
+		r.mu.Unlock()
+		if g != nil {
+			close(g)
+		}
+		return g != nil
 	}
 	qgo := func() bool {
 		r.mu.Lock()
@@ -399,6 +431,10 @@ func vRunCase(c vCase) (out vOut) {
 			if qgo() {
 				okRun = settle([]any{"qgo"})
 			}
+		case "sgo":
+			if sgo() {
+				okRun = settle([]any{"sgo"})
+			}
 		case "tick":
 			tick()
 			okRun = settle([]any{"tick"})
@@ -411,8 +447,11 @@ func vRunCase(c vCase) (out vOut) {
 	// clean-up (not part of the observed history): let everything finish and make
 	// the flusher quit so that no goroutine of this case survives
 	timex.SinceHook.Store(nil)
+	r.gateStop.Store(false)
 	for i := 0; i < 50; i++ {
 		qgo()
+		for sgo() {
+		}
 		ps := r.sortedParked()
 		for _, g := range ps {
 			r.release(g)
